@@ -26,7 +26,9 @@ type c01Case struct {
 	Value   string   `json:"value,omitempty"`
 	Values  []string `json:"values,omitempty"`
 	N       int      `json:"n,omitempty"`
-	Y, M, D int      `json:"ymd,omitempty"`
+	Y       int      `json:"year,omitempty"`
+	M       int      `json:"month,omitempty"`
+	D       int      `json:"day,omitempty"`
 	Seed    string   `json:"seed,omitempty"`
 	Ops     []string `json:"ops,omitempty"`
 	Feats   []string `json:"features,omitempty"`
